@@ -2,6 +2,7 @@ package e2wire
 
 import (
 	"bytes"
+	"encoding/base64"
 	"encoding/json"
 	"fmt"
 	"reflect"
@@ -366,7 +367,7 @@ func runC05(t *core.Tape, st *core.Stats) *core.Violation {
 
 		switch {
 		case p != nil:
-			if c.report(viol(p05, "no-panic", p.Func, p.Class, "NewRequest panicked: %s\n    faults: %s\n    delivered: %q", p.Value, desc, clipBytes(delivered))) {
+			if c.report(viol(p05, "no-panic", c.panicSite(p, delivered), p.Class, "NewRequest panicked: %s\n    faults: %s\n    delivered: %q", p.Value, desc, clipBytes(delivered))) {
 				return c.v
 			}
 		case body.ErrFired:
@@ -400,7 +401,7 @@ func runC05(t *core.Tape, st *core.Stats) *core.Violation {
 			st.Inc("op:UnmarshalDocument")
 
 			if p != nil {
-				if c.report(viol(p05, "no-panic", p.Func, p.Class, "UnmarshalDocument panicked: %s\n    faults: %s\n    delivered: %q", p.Value, desc, clipBytes(delivered))) {
+				if c.report(viol(p05, "no-panic", c.panicSite(p, delivered), p.Class, "UnmarshalDocument panicked: %s\n    faults: %s\n    delivered: %q", p.Value, desc, clipBytes(delivered))) {
 					return c.v
 				}
 			} else if v := c.checkDoc("UnmarshalDocument", desc, doc, err, delivered); v != nil && c.report(v) {
@@ -583,7 +584,7 @@ func (c *c05) payload(pl []byte, desc string) *core.Violation {
 
 		switch {
 		case p != nil:
-			v = viol(p05, "no-panic", p.Func, p.Class, "%s panicked: %s", o.name, p.Value)
+			v = viol(p05, "no-panic", c.panicSite(p, pl), p.Class, "%s panicked in %s: %s", o.name, p.Func, p.Value)
 		case err != nil && res != nil:
 			v = viol(p05, "error-xor-result", o.name, "payload", "%s returned both an error (%v) and a result %v", o.name, err, res)
 		case err == nil && res == nil && o.name != "UnmarshalIdentifiers":
@@ -612,4 +613,81 @@ func clipBytes(b []byte) []byte {
 	}
 
 	return b
+}
+
+// panicSite is the site class of a panic for signatures. Normally the innermost
+// package function. One defect is identified by its input instead, so that it is
+// recognised wherever a refactoring moves the code: a bytes attribute whose JSON
+// value is not a base64 string. The payload is examined, not the stack.
+func (c *c05) panicSite(p *core.Panic, payload []byte) string {
+	if (p.Class == "illegal-base64" || p.Class == "json-cannot-unmarshal") && c.hasBadBytesAttr(payload) {
+		return "bytes-attribute-not-base64"
+	}
+
+	return p.Func
+}
+
+// hasBadBytesAttr reports whether some resource object of a schema type in the
+// payload gives a bytes attribute a value that is not a base64 string.
+func (c *c05) hasBadBytesAttr(payload []byte) bool {
+	dec := json.NewDecoder(bytes.NewReader(payload))
+	dec.UseNumber()
+
+	var root interface{}
+	if dec.Decode(&root) != nil {
+		return false
+	}
+
+	found := false
+
+	var walk func(v interface{}, depth int)
+
+	walk = func(v interface{}, depth int) {
+		if found || depth > 12 {
+			return
+		}
+
+		switch x := v.(type) {
+		case []interface{}:
+			for _, e := range x {
+				walk(e, depth+1)
+			}
+		case map[string]interface{}:
+			if tn, ok := x["type"].(string); ok {
+				if ts := c.spec.Type(tn); ts != nil {
+					if attrs, ok := x["attributes"].(map[string]interface{}); ok {
+						for _, a := range ts.Attrs {
+							if a.Kind != world.KBytes {
+								continue
+							}
+
+							val, present := attrs[a.Name]
+							if !present || val == nil {
+								continue
+							}
+
+							s, isStr := val.(string)
+							if !isStr {
+								found = true
+								return
+							}
+
+							if _, err := base64.StdEncoding.DecodeString(s); err != nil {
+								found = true
+								return
+							}
+						}
+					}
+				}
+			}
+
+			for _, k := range sortedKeys(x) {
+				walk(x[k], depth+1)
+			}
+		}
+	}
+
+	walk(root, 0)
+
+	return found
 }
